@@ -94,6 +94,38 @@ class ContinueParentStageHandler(StabilizeHandler[ContinueParentStage]):
 
         self.with_stage(message, on_stage)
 
+    def _store_failed_parent(self, stage: StageExecution, message: ContinueParentStage) -> None:
+        """Persist a parent that this handler marked failed / canceled, TOGETHER with the
+        event that describes it (same commit), the processed mark and the CompleteStage
+        that propagates the outcome. Without the event the log still says RUNNING for a
+        stage whose row is TERMINAL, and a replay does not reproduce the stored state."""
+        with self.repository.transaction(self.queue) as txn:
+            txn.store_stage(stage)
+            if self.event_recorder:
+                self.set_event_context(stage.execution.id if stage.execution else "")
+                if stage.status == WorkflowStatus.CANCELED:
+                    self.event_recorder.record_stage_canceled(stage, source_handler="ContinueParentStageHandler")
+                else:
+                    error = stage.context.get("exception", {}).get("details", {}).get(
+                        "error", "A synthetic before/after stage failed"
+                    )
+                    self.event_recorder.record_stage_failed(
+                        stage, error=str(error), source_handler="ContinueParentStageHandler"
+                    )
+            if message.message_id:
+                txn.mark_message_processed(
+                    message_id=message.message_id,
+                    handler_type="ContinueParentStage",
+                    execution_id=message.execution_id,
+                )
+            txn.push_message(
+                CompleteStage(
+                    execution_type=message.execution_type,
+                    execution_id=message.execution_id,
+                    stage_id=stage.id,
+                )
+            )
+
     def _handle_before_phase(
         self,
         stage: StageExecution,
@@ -127,21 +159,7 @@ class ContinueParentStageHandler(StabilizeHandler[ContinueParentStage]):
             self.set_stage_status(stage, failed_status)
             stage.end_time = self.current_time_millis()
             # Use atomic transaction to ensure state and message are committed together
-            self.txn_helper.execute_atomic(
-                stage=stage,
-                source_message=message,
-                messages_to_push=[
-                    (
-                        CompleteStage(
-                            execution_type=message.execution_type,
-                            execution_id=message.execution_id,
-                            stage_id=stage.id,
-                        ),
-                        None,
-                    )
-                ],
-                handler_name="ContinueParentStage",
-            )
+            self._store_failed_parent(stage, message)
             return
 
         if not all_complete:
@@ -171,21 +189,7 @@ class ContinueParentStageHandler(StabilizeHandler[ContinueParentStage]):
                 stage.context["exception"] = {
                     "details": {"error": "Exceeded max retries waiting for before-stages"},
                 }
-                self.txn_helper.execute_atomic(
-                    stage=stage,
-                    source_message=message,
-                    messages_to_push=[
-                        (
-                            CompleteStage(
-                                execution_type=message.execution_type,
-                                execution_id=message.execution_id,
-                                stage_id=stage.id,
-                            ),
-                            None,
-                        )
-                    ],
-                    handler_name="ContinueParentStage",
-                )
+                self._store_failed_parent(stage, message)
                 return
 
             # Re-queue with incremented retry count
@@ -311,21 +315,7 @@ class ContinueParentStageHandler(StabilizeHandler[ContinueParentStage]):
             )
             self.set_stage_status(stage, failed_status)
             stage.end_time = self.current_time_millis()
-            self.txn_helper.execute_atomic(
-                stage=stage,
-                source_message=message,
-                messages_to_push=[
-                    (
-                        CompleteStage(
-                            execution_type=message.execution_type,
-                            execution_id=message.execution_id,
-                            stage_id=stage.id,
-                        ),
-                        None,
-                    )
-                ],
-                handler_name="ContinueParentStage",
-            )
+            self._store_failed_parent(stage, message)
             return
 
         if not all_complete:
@@ -355,21 +345,7 @@ class ContinueParentStageHandler(StabilizeHandler[ContinueParentStage]):
                 stage.context["exception"] = {
                     "details": {"error": "Exceeded max retries waiting for after-stages"},
                 }
-                self.txn_helper.execute_atomic(
-                    stage=stage,
-                    source_message=message,
-                    messages_to_push=[
-                        (
-                            CompleteStage(
-                                execution_type=message.execution_type,
-                                execution_id=message.execution_id,
-                                stage_id=stage.id,
-                            ),
-                            None,
-                        )
-                    ],
-                    handler_name="ContinueParentStage",
-                )
+                self._store_failed_parent(stage, message)
                 return
 
             # Re-queue with incremented retry count
